@@ -381,6 +381,8 @@ def _obligations(q):
     for t in (["tri", "tri2"] if q else ["tri", "tri2", "fan3"]):
         obs.append(Ob("faces-" + t, with_setup(t, faces_body), covers=COVERS, note="face areas, barycentres, sums on " + t))
         obs.append(Ob("angles-" + t, with_setup(t, angles_body, geometry_math=True), covers=COVERS, note="corner angles on " + t))
+    obs.append(Ob("angles-quad", with_setup("quad", angles_body, geometry_math=True), covers=COVERS,
+                  note="corner angles of one (generally non-planar, possibly non-convex) quad: every corner is measured, none deduced"))
     obs.append(Ob("normals-tri", with_setup("tri", normals_body), covers=COVERS, note="unit face normals"))
     for t in ["tri2", "fan3"]:
         obs.append(Ob("weights-" + t, with_setup(t, weights_body, need_geometry=False), covers=COVERS, note="cotangent weights from free per-corner cotangents on " + t))
